@@ -520,7 +520,7 @@ func matchLikePattern(text, pattern string) bool {
 	ti, pi := 0, 0
 	starIdx, matchIdx := -1, 0
 	for ti < len(text) {
-		if pi < len(pattern) && (pattern[pi] == '_' || pattern[pi] == text[ti]) {
+		if pi < len(pattern) && pattern[pi] != '%' && (pattern[pi] == '_' || pattern[pi] == text[ti]) {
 			ti++
 			pi++
 		} else if pi < len(pattern) && pattern[pi] == '%' {
